@@ -37,7 +37,7 @@ func init() {
 				return 1_500_000
 			}, Run: c06Arc,
 				Min: map[string]int64{"arcs": 100000, "relative": 20000, "absolute": 20000, "scaled_up_radii": 10000, "large_arc": 20000, "sweep_positive": 20000, "sweep_negative": 20000,
-					"zero_radius": 5000, "exact_semicircles": 2000, "exact_quarter_circles": 2000, "rotation_whole_quarter_turns": 50000, "rotation_of_many_turns": 50000, "reset_before_setrasterizer": 50000, "rectangle_changed_after_reset": 50000, "renderer_used_for_an_earlier_graphic": 50000, "lattice_mode": 20000, "targets_of_thousands_of_pixels": 30000, "lattice_endpoint_equals_pen_pixels": 5000, "cubics_1": 1000, "cubics_2": 1000, "cubics_3": 1000, "cubics_4": 1000, "negative_radius": 5000, "through_destination_logger": 50000, "last_arc_of_an_encoded_run": 100000, "encoded_run_position_above_16": 30000, "arc_directly_after_other_arcs": 100000, "same_ellipse_with_too_small_radii_earlier_in_the_path": 50000, "degenerate_arc_before_the_arc": 50000}},
+					"zero_radius": 5000, "exact_semicircles": 2000, "exact_quarter_circles": 2000, "rotation_whole_quarter_turns": 50000, "rotation_of_many_turns": 50000, "reset_before_setrasterizer": 50000, "rectangle_changed_after_reset": 50000, "renderer_used_for_an_earlier_graphic": 50000, "lattice_mode": 20000, "targets_of_thousands_of_pixels": 30000, "lattice_endpoint_equals_pen_pixels": 5000, "cubics_1": 1000, "cubics_2": 1000, "cubics_3": 1000, "cubics_4": 1000, "negative_radius": 5000, "through_destination_logger": 50000, "last_arc_of_an_encoded_run": 100000, "encoded_run_position_above_16": 30000, "arc_directly_after_other_arcs": 100000, "shallow_arcs_with_a_far_centre": 50000, "shallow_arc_points_judged_in_pixels": 100000, "same_ellipse_with_too_small_radii_earlier_in_the_path": 50000, "degenerate_arc_before_the_arc": 50000}},
 		},
 	})
 }
@@ -128,6 +128,13 @@ func c06Arc(c *run.Ctx, idx uint64) {
 		d = math.Hypot(float64(ex-x0), float64(ey-y0))
 	}
 	fac := r.PickF(0.3, 0.999, 1.001, 1.5, 10)
+	// shallow: radii thousands to a million times the chord (an almost straight
+	// arc whose centre lies far outside the canvas); judged in pixels as well
+	shallow := !lattice && r.Chance(1, 12)
+	if shallow {
+		fac = math.Min(r.LogUniform(1e3, 1e6), 2e7/d)
+		c.Count("shallow_arcs_with_a_far_centre", 1)
+	}
 	rx := float32(d / 2 * fac * r.Uniform(0.5, 1.5))
 	ry := float32(d / 2 * fac * r.Uniform(0.5, 1.5))
 	if lattice && r.Bool() {
@@ -186,6 +193,9 @@ func c06Arc(c *run.Ctx, idx uint64) {
 		c.Count("rotation_of_many_turns", 1)
 	}
 	fa, fs := r.Bool(), r.Bool()
+	if shallow {
+		fa = false // the small arc (the large one is an almost full turn of the huge ellipse)
+	}
 	rel := r.Bool()
 	x0, y0, ex, ey, rx, ry, rot = q(x0), q(y0), q(ex), q(ey), q(rx), q(ry), q(rot)
 
@@ -467,6 +477,26 @@ func c06Arc(c *run.Ctx, idx uint64) {
 			if dev > 1e-3 {
 				fail("point-off-the-ellipse", map[string]interface{}{"segment": ci, "t": t, "radius_in_unit_circle": rad, "centre": []float64{a.CX, a.CY}, "radii": []float64{a.RX, a.RY}})
 				return
+			}
+			if shallow && chordU < 5e-3 && !fa {
+				// (the pen may have been moved by what precedes the arc: shallow is
+				// decided on the actual chord, in unit-circle coordinates)
+				// In pixels: a point at unit-circle radius rad is at least
+				// |rad-1|*min(radii)*min(scales) pixels away from the ellipse. A shallow
+				// arc is far below the cubic approximation error, and a rounding error of
+				// an end point moves the curve by no more than itself (it moves the
+				// ill-determined centre, along the curve's normal, not the curve), so
+				// what remains is float32 rounding of pixel coordinates: measured
+				// <= 4e-4 px on targets of 8192 px at any radius up to 1e8.
+				c.Count("shallow_arc_points_judged_in_pixels", 1)
+				devPx := math.Abs(rad-1) * minR * math.Min(sx, sy)
+				tolPx := 0.02 + 2e-6*(math.Abs(p[0])+math.Abs(p[1])+math.Abs(float64(penX))+math.Abs(float64(penY)))
+				c.MaxF("worst_shallow_arc_deviation_in_pixels", math.Min(devPx, 1e6))
+				c.MaxF("worst_shallow_arc_deviation_as_a_fraction_of_its_tolerance", math.Min(devPx/tolPx, 1e6))
+				if devPx > tolPx {
+					fail("point-off-the-ellipse/pixels", map[string]interface{}{"segment": ci, "t": t, "pixels_off_at_least": devPx, "tolerance": tolPx, "centre": []float64{a.CX, a.CY}, "radii": []float64{a.RX, a.RY}})
+					return
+				}
 			}
 			an := math.Atan2(u1, u0)
 			if math.IsNaN(segStart) {
